@@ -59,7 +59,61 @@ SMAX, SMIN = 987654, 123456
 
 def tasks(tier):
     return ['skeleton', 'range', 'determinism', 'group_calls', 'carry',
-            'bounded', 'canary']
+            'bounded', 'forward', 'canary']
+
+
+def task_forward(ctx, repo):
+    """AccelerationEval (Python side): compute(t, dt) runs the compiled
+    evaluator once at the same (t, dt); set_nnps stores the object and hands
+    the same object on; update_particle_arrays hands the same arrays on;
+    set_compiled_object stores it."""
+    m = repo.module('pysph.sph.acceleration_eval')
+    W = m.path
+    M = m.methods('AccelerationEval')
+    obs = []
+
+    def run(fname, args):
+        calls = []
+
+        def rec(tag):
+            return Native(lambda e, s_, a, k, n: calls.append(
+                (tag, list(a), dict(k))))
+        c = SymObject(None, dict(compute=rec('c.compute'),
+                                 set_nnps=rec('c.set_nnps'),
+                                 update_particle_arrays=rec('c.update')),
+                      'c_acceleration_eval')
+        obj = SymObject('AccelerationEval', dict(c_acceleration_eval=c,
+                                                 nnps='old'), 'self')
+        obj.module = m.name
+        ex = Executor(repo, m, qualname='AccelerationEval.' + fname,
+                      merge=False)
+        outs = ex.exec_function(M[fname], dict(self=obj, **args))
+        ctx.function(m, M[fname], 'AccelerationEval.' + fname, ex.dropped)
+        return outs, calls
+    t, dt = z3.Real('t'), z3.Real('dt')
+    try:
+        outs, calls = run('compute', dict(t=t, dt=dt))
+        obs.append(Obligation('forward.compute', [], z3.BoolVal(
+            len(outs) == 1 and calls == [('c.compute', [t, dt], {})]), W,
+            extra=dict(calls=str(calls)[:200])))
+        outs, calls = run('set_nnps', dict(nnps='NEW'))
+        obs.append(Obligation('forward.set_nnps', [], z3.BoolVal(
+            len(outs) == 1 and calls == [('c.set_nnps', ['NEW'], {})] and
+            outs[0].state.env['self'].attrs['nnps'] == 'NEW'), W))
+        outs, calls = run('update_particle_arrays',
+                          dict(particle_arrays='ARRAYS'))
+        obs.append(Obligation('forward.update_particle_arrays', [],
+                              z3.BoolVal(len(outs) == 1 and calls == [
+                                  ('c.update', ['ARRAYS'], {})]), W))
+        outs, calls = run('set_compiled_object',
+                          dict(c_acceleration_eval='C2'))
+        obs.append(Obligation('forward.set_compiled_object', [], z3.BoolVal(
+            len(outs) == 1 and not calls and outs[0].state.env['self'].attrs[
+                'c_acceleration_eval'] == 'C2'), W))
+    except VCError as e:
+        ctx.outside('forward', str(e))
+        return
+    ctx.prove('forward.python_side_reaches_the_compiled_evaluator', obs)
 
 
 def helper_obj(m):
@@ -102,6 +156,8 @@ def run_task(task, ctx):
         return task_group_calls(ctx, repo, m)
     if task == 'carry':
         return task_carry(ctx, repo, m)
+    if task == 'forward':
+        return task_forward(ctx, repo)
     if task == 'canary':
         k = z3.Int('ck')
         ctx.canary('canary.must_fail', Obligation('c', [k >= 1], k >= 2))
